@@ -1,6 +1,9 @@
 import CoapVerif.Model.Parse
+import CoapVerif.Model.OptFilter
+import CoapVerif.Spec.OptFilter
 /- Line-protocol driver for the codec properties (C03 …).  -/
 -- DRIVER-OPS: parse => Coap.Driver.parseStep
+-- DRIVER-OPS: optit => Coap.Driver.optitStep
 namespace Coap.Driver
 
 def showOpts (os : List (Nat × Bytes)) : String :=
@@ -34,6 +37,86 @@ def parseStep (args : List String) : String :=
   | [p, h] =>
     match protoOf p, bytesOfHex h with
     | some p, some bs => "M " ++ showR (M.parse p bs) ++ " | S " ++ showO (Spec.decode p bs)
+    | _, _ => "bad-op"
+  | _ => "bad-op"
+
+/-! `optit raw|udp <hex> <script>`: option filter script, filtered iteration, coap_check_option (C03) -/
+
+inductive FOp | set (n : Nat) | clr (n : Nat) | get (n : Nat) | clear
+
+def parseFOp (t : String) : Option FOp :=
+  if t = "c" then some .clear else
+  match t.toList with
+  | c :: r =>
+    match (String.ofList r).toNat? with
+    | some n => if n > 65535 then none else
+                if c = 's' then some (.set n) else if c = 'u' then some (.clr n) else if c = 'g' then some (.get n) else none
+    | none => none
+  | [] => none
+
+def parseScript (s : String) : Option (List FOp) :=
+  if s = "-" then some [] else
+  let ws := s.splitOn ","
+  if ws.length > 64 then none else ws.mapM parseFOp
+
+def fopNums : List FOp → List Nat → List Nat
+  | [], acc => acc
+  | .clear :: r, acc => fopNums r acc
+  | .set n :: r, acc | .clr n :: r, acc | .get n :: r, acc => fopNums r (if acc.contains n then acc else acc ++ [n])
+
+def runScriptM : List FOp → M.OptFilter.Flt → String → M.OptFilter.Flt × String
+  | [], f, out => (f, out)
+  | .clear :: r, _, out => runScriptM r M.OptFilter.Flt.clear (out ++ "c")
+  | .set n :: r, f, out => let x := f.op n .set; runScriptM r x.1 (out ++ toString x.2)
+  | .clr n :: r, f, out => let x := f.op n .clr; runScriptM r x.1 (out ++ toString x.2)
+  | .get n :: r, f, out => let x := f.op n .get; runScriptM r x.1 (out ++ toString x.2)
+
+def runScriptS : List FOp → Spec.OptFilter.BSet → String → Spec.OptFilter.BSet × String
+  | [], s, out => (s, out)
+  | .clear :: r, _, out => runScriptS r Spec.OptFilter.BSet.empty (out ++ "c")
+  | .set n :: r, s, out => let x := s.set n; runScriptS r x.1 (out ++ toString x.2)
+  | .clr n :: r, s, out => let x := s.clr n; runScriptS r x.1 (out ++ toString x.2)
+  | .get n :: r, s, out => runScriptS r s (out ++ (if s.get n then "1" else "0"))
+
+def showChk (xs : List (Nat × Option Bytes)) : String :=
+  if xs.isEmpty then "-" else
+  String.intercalate ";" (xs.map fun x => toString x.1 ++ "=" ++ (match x.2 with | some v => hexOrDash v | none => "none"))
+
+/-- M: filter script, then `iterF` / `checkOption` over the option region -/
+def optitM (region : Bytes) (sc : List FOp) : String :=
+  let (f, out) := runScriptM sc M.OptFilter.Flt.clear ""
+  let fuel := region.length + 1
+  match M.OptFilter.iterF f.get fuel region 0 true with
+  | R.oob => "oob"
+  | R.rej => "rej"
+  | R.ok os =>
+    let chk := (fopNums sc []).map fun n => (n, M.OptFilter.checkOption fuel region n)
+    if chk.any (fun x => match x.2 with | R.ok _ => false | _ => true) then "oob" else
+    "r=" ++ (if sc.isEmpty then "-" else out) ++ " mask=" ++ toString f.mask ++ " it=" ++ showOpts os ++ " chk=" ++
+      showChk (chk.map fun x => (x.1, match x.2 with | R.ok (some o) => some o.2 | _ => none))
+
+/-- S: bounded set, `List.filter` / `List.find?` over the reference decoding -/
+def optitS (opts : List (Nat × Bytes)) (sc : List FOp) : String :=
+  let (s, out) := runScriptS sc Spec.OptFilter.BSet.empty ""
+  "r=" ++ (if sc.isEmpty then "-" else out) ++ " it=" ++ showOpts (opts.filter fun o => s.get o.1) ++ " chk=" ++
+    showChk ((fopNums sc []).map fun n => (n, (opts.find? fun o => o.1 = n).map (·.2)))
+
+def optitStep (args : List String) : String :=
+  match args with
+  | [mode, h, script] =>
+    match bytesOfHex h, parseScript script with
+    | some bs, some sc =>
+      if mode = "raw" then "M " ++ optitM bs sc ++ " | S na"
+      else if mode = "udp" then
+        match M.parse .udp bs, Spec.decode .udp bs with
+        | R.ok m, sd =>
+          let tl := m.token.length
+          let ext := if tl < 13 then 0 else if tl < 269 then 1 else 2
+          "M " ++ optitM (bs.drop (4 + ext + tl)) sc ++ " | S " ++
+            (match sd with | some d => optitS d.opts sc | none => "rej")
+        | R.rej, sd => "M rej | S " ++ (match sd with | some d => optitS d.opts sc | none => "rej")
+        | R.oob, _ => "M oob | S na"
+      else "bad-op"
     | _, _ => "bad-op"
   | _ => "bad-op"
 
